@@ -265,7 +265,7 @@ fn hexcap(b: &[u8]) -> String {
 pub fn run(ctx: &Ctx) -> Report {
     let mut rep = Report::new("C15");
     rep.corr_module = "AccountRealloc".into();
-    rep.expect_classes(&["rp:grow:ok", "rp:shrink:ok", "rp:same:ok", "rp:err:missing", "rp:err:limit", "packer:item", "position:first", "position:middle", "position:last"]);
+    rep.expect_classes(&["rp:grow:ok", "rp:shrink:ok", "rp:same:ok", "rp:err:missing", "rp:err:limit", "packer:item", "position:first", "position:middle", "position:last", "rp:fixed-capacity-packer", "account:value>10KiB", "account:10MiB"]);
     let mut rng = Rng::new(ctx.seed.wrapping_mul(233).wrapping_add(15));
     // ---------------- derived packer on items
     let n_items = ctx.scale(300, 3000);
